@@ -29,6 +29,10 @@ def spec_graph(mol: Mol, targets, tag="rg", timeout=600):
 def impl_graph(g, mol: Mol, text):
     """the library's graph with nodes mapped to (token index, descriptor index) of the structured description"""
     obj = g.Molecule(text)
+    # the graph is a function of the molecule: it is built three times on the same object and the LAST build is compared
+    # (building a graph must not change what the next build states)
+    obj.gen_reaction_graph()
+    obj.gen_reaction_graph()
     Gr = obj.gen_reaction_graph()
     # identify nodes through the parsed object's own element list (the graph's nodes ARE these objects)
     tok_index = {}
@@ -74,6 +78,8 @@ def classify(mol: Mol, frm, kind, flat, want):
     cands = [flat[k[2][0] - 1][0].descs[k[2][1] - 1] for k in want if k[0] == frm and k[1] == kind]
     if kind == "trans_prob" and isinstance(nxt, Sto) and nxt.left.tr is not None:
         return "left-terminal-list-not-in-graph"
+    if kind == "trans_prob" and t.chem()["attach"][frm[1] - 1][1] != 1:
+        return "non-single-bond-hand-over-not-in-graph"
     if desc.tr is None and cands and all(c.weight() == 0 for c in cands):
         return "all-candidates-have-weight-zero"
     if kind == "trans_prob" and isinstance(nxt, Token) and len(nxt.descs) > 1:
@@ -82,7 +88,7 @@ def classify(mol: Mol, frm, kind, flat, want):
     return ("listed:" if desc.tr is not None else "plain:") + where
 
 
-KNOWN_CAUSES = ("left-terminal-list-not-in-graph", "all-candidates-have-weight-zero", "hand-over-to-token-with-several-descriptors")
+KNOWN_CAUSES = ("non-single-bond-hand-over-not-in-graph", "left-terminal-list-not-in-graph", "all-candidates-have-weight-zero", "hand-over-to-token-with-several-descriptors")
 
 
 def _key(what, kind, cls):
